@@ -483,6 +483,12 @@ func c13Gen(r *core.Run) *c13Case {
 	}
 	if c.DestMode == "other-present" || c.DestMode == "symlink" {
 		c.Old = t.Bytes(sizes[t.Choose(len(sizes), "oldlen")], "old")
+		if t.Chance(1, 6, "old-empty") {
+			// a destination that exists and is empty (a name reserved with
+			// mktemp, a file truncated by an earlier step): still "a file that
+			// existed before", whose complete previous content is nothing
+			c.Old = []byte{}
+		}
 	}
 	return c
 }
